@@ -177,6 +177,8 @@ def _docs_as_dicts(tier, seed, corpus_limit=None):
             out.append((key, L(gen.render(root))))
         except Exception:
             continue     # reported by the text-to-dict seam
+    for i, text in enumerate(gen.CROSS_TYPE_TEXTS):
+        out.append((f"cross-type:{i}", L(text)))       # one keyword in two object kinds with different schemas
     for f, d in load_corpus(corpus_limit):
         if not isinstance(d, Exception):
             out.append(("corpus:" + os.path.basename(f), d))
